@@ -441,3 +441,105 @@ def result_uses(body, call_bb, _depth=0, _local=None):
             else:
                 out.add("passed:" + (c2.describe()))
     return out
+
+
+# ------------------------------------------------------------------------------------------
+# taint: does a value derive from the result of given calls (through any intermediate calls)?
+# ------------------------------------------------------------------------------------------
+
+
+def tainted_by_call(body, x, call_bbs, _depth=0, _seen=None):
+    call_bbs = set(call_bbs)
+    _seen = _seen if _seen is not None else set()
+    for root, path in body.resolve(x):
+        if root[0] == "call":
+            if root[1] in call_bbs:
+                return True
+            if root[1] in _seen or _depth > 12:
+                continue
+            _seen.add(root[1])
+            cs = body.call_at(root[1])
+            for a in cs.args:
+                if tainted_by_call(body, a, call_bbs, _depth + 1, _seen):
+                    return True
+        elif root[0] == "agg":
+            rv = body.agg_at(root[1], root[2])
+            for a in rv["fields"]:
+                if tainted_by_call(body, a, call_bbs, _depth + 1, _seen):
+                    return True
+    return False
+
+
+# ------------------------------------------------------------------------------------------
+# modelled std combinators: abstract value of an operand given the variant of an origin call
+# ------------------------------------------------------------------------------------------
+
+
+def eval_combinators(body, op, subst, _depth=0):
+    """abstract value in {'Ok','Err','Some','None',('const', v),'unknown'} of operand `op` when
+    the call results listed in subst {call_bb: abstract value} take the given variants. Follows
+    Result::ok/err, Option::map/and_then/filter/as_ref, unwrap_or, is_some/is_none/is_ok/is_err."""
+    if _depth > 16:
+        return "unknown"
+    k = op.get("k")
+    if k is not None:
+        return ("const", k.get("v", k.get("s")))
+    pl = op_place(op)
+    if pl is None or pl["p"]:
+        return "unknown"
+    defs = body.defs().get(pl["l"], [])
+    if len(defs) != 1:
+        return "unknown"
+    d = defs[0]
+    if d[0] == "assign":
+        rv = d[3]["rv"]
+        if rv["r"] in ("use", "cast"):
+            return eval_combinators(body, rv["o"], subst, _depth + 1)
+        if rv["r"] == "un" and rv["op"] == "Not":
+            v = eval_combinators(body, rv["a"], subst, _depth + 1)
+            if isinstance(v, tuple) and v[0] == "const" and v[1] in (0, 1):
+                return ("const", 1 - v[1])
+            return "unknown"
+        if rv["r"] == "agg" and rv.get("kind") == "adt" and rv.get("variant") in ("Some", "None", "Ok", "Err"):
+            return rv["variant"]
+        return "unknown"
+    bb = d[1]
+    if bb in subst:
+        return subst[bb]
+    cs = body.call_at(bb)
+    n = cs.name
+    path = cs.path or ""
+    if not (path.startswith("std::option::Option") or path.startswith("std::result::Result")):
+        return "unknown"
+    a = eval_combinators(body, cs.args[0], subst, _depth + 1) if cs.args else "unknown"
+    if n == "ok":
+        return {"Ok": "Some", "Err": "None"}.get(a, "unknown")
+    if n == "err":
+        return {"Ok": "None", "Err": "Some"}.get(a, "unknown")
+    if n in ("map", "as_ref", "as_mut", "copied", "cloned", "inspect", "as_deref", "as_deref_mut"):
+        return a if a in ("None", "Some", "Ok", "Err") else "unknown"
+    if n in ("and_then", "filter"):
+        return "None" if a == "None" else "unknown"
+    if n == "map_err":
+        return a if a in ("Ok", "Err") else "unknown"
+    if n == "unwrap_or":
+        if a in ("None", "Err"):
+            return eval_combinators(body, cs.args[1], subst, _depth + 1)
+        return "unknown"
+    if n == "is_none":
+        return {"None": ("const", 1), "Some": ("const", 0)}.get(a, "unknown")
+    if n == "is_some":
+        return {"None": ("const", 0), "Some": ("const", 1)}.get(a, "unknown")
+    if n == "is_err":
+        return {"Ok": ("const", 0), "Err": ("const", 1)}.get(a, "unknown")
+    if n == "is_ok":
+        return {"Ok": ("const", 1), "Err": ("const", 0)}.get(a, "unknown")
+    if n in ("is_some_and", "is_ok_and"):
+        return ("const", 0) if a in ("None", "Err") else "unknown"
+    if n in ("is_none_or",):
+        return ("const", 1) if a == "None" else "unknown"
+    if n == "map_or":
+        if a in ("None", "Err"):
+            return eval_combinators(body, cs.args[1], subst, _depth + 1)
+        return "unknown"
+    return "unknown"
